@@ -138,6 +138,17 @@ CHECKS = {
             "clash pool = fixed names, entity/member names and their mangled variants (X, X_0, X_entry); identifiers that "
             "merely coincide with parameters of the generated code (Byte, Cursor, v, ...) are outside the property's clash domain",
             "DESIGN.md section 3, C07"),
+    "C06": ("fault_enumeration",
+            "hardware guard page right behind byte n-1 (SIGSEGV trap), verdict compared with an independent wire walk, "
+            "logical step counter via sanitizer-coverage edges; every truncation point and every length-field overwrite",
+            "size_bytes_checked is called on n-byte buffers that end at a PROT_NONE page for every truncation length of "
+            "well-formed images, for every blockLength/numInGroup/length occurrence overwritten with boundary values, and "
+            "for random corruptions, for message and group views, in unchecked and checked builds: a read at offset >= n "
+            "faults, the returned (valid, size) must equal the model's, and the instrumented-edge count must stay below a "
+            "bound linear in n.",
+            "reads further than 8 GiB behind the buffer may land in mapped memory unnoticed; work bound = max(1e6, "
+            "4000*(n+members+16)) edges; one open known finding (checked builds, wire blockLength below the compiled one)",
+            "DESIGN.md section 3, C06"),
 }
 
 
